@@ -16,6 +16,10 @@ from ..util import Result
 KEYS = [b"q1", b"q2", b"q3"]
 
 
+class Ambiguous(Exception):
+    """A finite timeout raced an action on a loaded machine: the outcome is not decided by the model."""
+
+
 class Cl:
     def __init__(self, srv, i):
         self.c = srv.client(timeout=10)
@@ -86,6 +90,10 @@ def history(srv, rng, res, ctl, hn):
             if got is NOTHING:
                 return bad("not-served/%s" % cause, "client c%d blocked on %s was not served although %s holds/held %s (model: must be served)" % (
                     w.i, resp.show(w.blocked["keys"]), k.decode(), v.decode()))
+            if got is NULL_ARRAY and w.blocked["deadline"] is not None and time.monotonic() >= w.blocked["t_send"] + w.blocked["timeout"]:
+                # the waiter the model serves had a finite timeout that fired before the push got there (the step took
+                # longer than the 60 ms guard on a loaded machine): who gets the element now is not the model's to say
+                raise Ambiguous()
             if got != [k, v]:
                 return bad("wrong-delivery/%s" % cause, "client c%d expected [%s, %s], got %s" % (w.i, k.decode(), v.decode(), resp.show(got)))
             if v in delivered:
@@ -109,8 +117,12 @@ def history(srv, rng, res, ctl, hn):
         """Registry entries <-> Blocked connections, at a quiescent point."""
         settle(3)
         r = ctl.cmd("VERIF", "BLOCKED")
+        t_read = time.monotonic()
         reg, conns, pending = r
         res.count("registry_checks")
+        # a waiter whose finite timeout has passed (or is about to) by the time the registry was read may
+        # rightly be gone already - on a loaded machine a step can take longer than a 150 ms timeout
+        maybe = {w.id for w in sim.waiters if not w.blocked["infinite"] and w.blocked["deadline"] <= t_read + 0.03}
         want = {}
         for w in sim.waiters:
             for k in w.blocked["keys"]:
@@ -123,12 +135,18 @@ def history(srv, rng, res, ctl, hn):
         if pending:
             return True       # wake-ups still queued: not quiescent yet
         for k in set(want) | set(got):
+            gs, ws = set(got.get(k, [])), set(want.get(k, []))
+            if maybe and (ws - maybe) <= gs <= ws:
+                res.count("registry_checks_with_expiring_waiters")
+                continue
             if sorted(want.get(k, [])) != sorted(set(got.get(k, []))):
                 return bad("residue/%s" % tag, "registry for %s holds connections %s, model says %s (blocked clients: %s)" % (
                     k.decode(), got.get(k, []), want.get(k, []), [(w.i, w.id) for w in sim.waiters]))
             if want.get(k, []) != got.get(k, []) and sorted(want.get(k, [])) == sorted(got.get(k, [])):
                 return bad("residue-order/%s" % tag, "registry order for %s is %s, blocking order %s" % (k.decode(), got.get(k), want.get(k)))
         for w in sim.waiters:
+            if w.id in maybe:
+                continue
             if states.get(w.id) != b"blocked":
                 return bad("residue/state/%s" % tag, "client c%d should be blocked, connection state is %r" % (w.i, states.get(w.id)))
         for cl in clients:
@@ -512,6 +530,9 @@ def stepwise_worker(wseed, binary, budget_s):
             n += 1
             try:
                 history(srv, rng, res, ctl, n)
+            except Ambiguous:
+                res.count("histories_abandoned_timeout_raced_an_action")
+                ctl = srv.client(timeout=20)
             except (Closed, Timeout) as e:
                 if not srv.alive():
                     res.violation("server-died", "exit %s\n%s" % (srv.exit_status(), srv.stderr_tail(1200)))
